@@ -60,8 +60,16 @@ def build_model(pycells, names=(), via='dict', work=None):
         finally:
             os.remove(path)
     comp = L.ModelCompiler()
+    # read_and_parse_dict takes numbers and non-empty text; other constants (dates, empty text, None) are set afterwards
+    late = {a: v for a, v in pycells.items()
+            if not isinstance(v, (int, float)) and not (isinstance(v, str) and v != '')}
+    if late:
+        pycells = {a: (0 if a in late else v) for a, v in pycells.items()}
     if not names:
-        return comp.read_and_parse_dict(dict(pycells))
+        model = comp.read_and_parse_dict(dict(pycells))
+        for a, v in late.items():
+            model.set_cell_value(a, v)
+        return model
     # the same steps parse_archive() performs after reading the cells
     model = comp.read_and_parse_dict(dict(pycells), build_code=False)
     comp.defined_names = {n: r.replace("'", '') if "''" not in r else r for n, r in names}
@@ -69,4 +77,6 @@ def build_model(pycells, names=(), via='dict', work=None):
     comp.link_cells_to_defined_names()
     comp.build_ranges()
     model.build_code()
+    for a, v in late.items():
+        model.set_cell_value(a, v)
     return model
